@@ -8,6 +8,7 @@ import (
 	"fmt"
 	"io"
 	"log"
+	"os"
 	mrand "math/rand"
 	"runtime"
 	"runtime/debug"
@@ -124,7 +125,11 @@ func Execute(t *testing.T, sc *Scenario, seed uint64, plan, sched *sim.Tape, wan
 			synctest.Test(t, func(t *testing.T) {
 				s.Net.Install()
 				defer s.Net.Uninstall()
-				s.Run(func() { r.Main(s) })
+				if os.Getenv("VERIF_RACE") != "" {
+					s.RunFree(func() { r.Main(s) })
+				} else {
+					s.Run(func() { r.Main(s) })
+				}
 				if !s.Finished() && !s.Failed() && sc.StuckProperty != "" {
 					s.Fail(sc.StuckProperty, "stuck", stuckSig(s), "application did not finish: timedOut=%v stepsOut=%v steps=%d\n%s",
 						s.TimedOut, s.StepsOut, s.Steps(), stuckDump(s))
